@@ -94,7 +94,9 @@ func (m *c11Mon) mon(c *ctx, w *hWorld, _ *worldSnap, sr *stepResult, hist []str
 	}
 	// allocation: linear in the size of the input and of the state, never in a number taken from the arguments
 	argB, stB := c11Sizes(cs, res.Pre)
-	thr := uint64(64<<10) + 64*argB + 8*stB
+	// (every listed entry of a multi-transfer may load, decode, re-encode and store one entry of the state: the state term is taken once per
+	// ARGUMENT - the number of arguments, not a number written in them)
+	thr := uint64(64<<10) + 64*argB + 8*stB*uint64(1+len(cs.Args))
 	if r := float64(res.AllocB) / float64(thr); r > m.maxRatio {
 		m.maxRatio, m.maxAlloc, m.maxAllocOf = r, res.AllocB, describeCall(cs)
 	}
